@@ -896,7 +896,7 @@ namespace vh
     for (std::size_t i = 0; i < p.stages_; ++i)
       p.e_[i] = t.flt();
     p.gamma_[0] = t.flt();
-    for (std::size_t i = 0; i < p.stages_; ++i)
+    for (std::size_t i = 0; i < 6; ++i)   // the whole array, entries beyond `stages_` included
       p.new_function_evaluation_[i] = t.nat() != 0;
     p.estimator_of_local_order_ = t.flt();
     p.round_off_ = t.flt();
